@@ -370,6 +370,8 @@ def main():
         for od in qed_orders:
             for sv in ("a1", "mu2_to"):
                 chk.case("qed.o%d%d.nf%d.%s" % (od[0], od[1], nf, sv), case_qed, order=od, nf=nf, seed_var=sv)
+    if not thorough:
+        chk.case("qed.o41.nf5.a1", case_qed, order=(4, 1), nf=5, seed_var="a1")
     return chk.run()
 
 
